@@ -488,7 +488,7 @@ func (d *driver) check() int {
 			from := uint64(i)
 			// a crashed worker is restarted after the crashing seed
 			for attempt := 0; attempt < 50 && time.Now().Before(until); attempt++ {
-				w, err := d.spawn(i, build, 2)
+				w, err := d.spawn(i, build, 1+i%2) // half the workers on one P: sync.Pool then hands a released buffer straight to the next reader
 				if err != nil {
 					mu.Lock()
 					harnessErr = append(harnessErr, err.Error())
